@@ -373,7 +373,7 @@ def builtin_values_section(tier, seed):
         cases.append((v, settings_for(rng, v, tier, sorts)))
     # dicts whose keys are of different but mutually comparable types (int / float / bool, tuples of them), in both sort settings,
     # alone and nested: ascending key order must not depend on the keys' types
-    num_pool = [3, 1.5, 2, -1, 0.25, 10 ** 20, 7.0, -2.5, 4, True, 0]
+    num_pool = [3, 1.5, 2, -1, 0.25, 10 ** 20, 7.0, -2.5, 4, True, 0, float('inf'), float('-inf'), -10 ** 30]
     for _ in range(150 if tier == 'quick' else 1500):
         ks = rng.sample(num_pool, rng.choice([2, 3, 4, 5]))
         seen, keys = set(), []
